@@ -1002,8 +1002,8 @@ UNITS["PyDispatchRF"] = ("xitorch/optimize/rootfinder.py", [
     # equilibrium(): default, lower-casing, and the choice between the fixed-point methods and the root finders
     dict(qual="equilibrium", coq="equilibrium_method_prelude", params=[],
          fragment={"from": "method = _get_equilibrium_default_method(method)", "until": "return _RootFinder.apply(new_fcn, y0, fwd_fcn, alg_type, fwd_options, bck_options, len(params), *params, *pfunc.objparams())",
-                   "inputs": [("method", O)], "outputs": ["method", "alg_type"]},
-         skip=["fwd_options['method'] = method", "fwd_fcn = pfunc if method in _EQUIL_METHODS else new_fcn"],
+                   "inputs": [("method", O), ("pfunc", O), ("new_fcn", O)], "outputs": ["method", "alg_type", "fwd_fcn"]},
+         skip=["fwd_options['method'] = method"],
          globals=[("_EQUIL_METHODS", D(S, O))]),
     # minimize(): default, lower-casing, optimiser or root finder
     dict(qual="minimize", coq="minimize_method_prelude", params=[],
